@@ -99,6 +99,7 @@ func Assert(c bool, label string) {
 		fmt.Printf("HELD %s\n", label)
 	}
 }
+func Lemma(c bool, label string) { Assert(c, label) }
 func AssertExcept(c bool, label string, finding string, pred bool) {
 	if !c {
 		fmt.Printf("REPRODUCED %s finding=%s pred=%v\n", label, finding, pred)
